@@ -54,7 +54,9 @@ class Scope:
 class Gen:
     def __init__(self, rng, profile="py", tag_calls=False, max_ops=12, nphases=None, allow_end=True,
                  weird_names=True, persistent_arrays=True, multi_result=True, persist_tag="",
-                 readonly_state=(), advance_time=True, phase_plan=None, components=None, funcs=None):
+                 readonly_state=(), advance_time=True, phase_plan=None, components=None, funcs=None,
+                 ifexpr=True):
+        self.ifexpr = ifexpr
         self.persist_tag = persist_tag
         self.readonly_state = list(readonly_state)
         self.advance_time = advance_time
@@ -143,7 +145,7 @@ class Gen:
             return ["**", base, ["num", rng.choice([2, 3, 2])]]
         if r < 0.8:
             return [rng.choice(["min", "max"]), self.num_expr(sc, d - 1), self.num_expr(sc, d - 1)]
-        if r < 0.86:
+        if r < 0.86 and self.ifexpr:
             return ["if", self.bool_expr(sc, d - 1), self.num_expr(sc, d - 1), self.num_expr(sc, d - 1)]
         if r < 0.92 and sc.arrs:
             a = rng.choice(sorted(sc.arrs))
